@@ -1,0 +1,12 @@
+//go:build !verif
+
+// Package verifhook holds observation and scheduling hooks used by external
+// verification tooling. Without the "verif" build tag every function is an
+// empty stub that the compiler inlines away.
+package verifhook
+
+// Jitter is a no-op without the verif build tag.
+func Jitter(site string, idx int) {}
+
+// Note is a no-op without the verif build tag.
+func Note(site string, value string) {}
